@@ -342,6 +342,11 @@ class HelicityAmplitudeBuilder:
             raise ValueError(msg)
         self.__reaction = reaction
         self.__adapter = HelicityAdapter(reaction)
+        for transition in reaction.transitions:
+            # amplitudes are symmetrized over identical final state particles, so the
+            # kinematic variables of the permuted topologies are required as well
+            for graph in _perform_combinatorics(transition):
+                self.__adapter.register_transition(_freeze(graph))
         self.__config = BuilderConfiguration(
             spin_alignment=NoAlignment(),
             scalar_initial_state_mass=False,
